@@ -67,9 +67,9 @@ Print Assumptions C03_none_is_null.
 
 (* ---- delivery of one argument: sent JSON is accepted by coercion and yields the caller's value.
         Guards = finding classes: g_f10 (serialize on a non-T! variable), inputs_ok (F18: colliding
-        input field names), g_f21 (non-null list of nullable items in an input field). ---- *)
+        input field names).  (The former guard g_f21 went away with /repo 1ef155d.) ---- *)
 Theorem C03_sent_coerces_to_intended_partial : forall ser, ser_wf ser -> forall S snake,
-  inputs_ok S snake = true -> g_f21 S = true ->
+  inputs_ok S snake = true ->
   forall n t v, typed n S snake t v = true -> g_f10 S t = true ->
   exists j c, (forall m, n <= m -> convert_value ser m S snake (wrap_arg ser S t v) = Some j) /\
               coerce n S t j = Some c /\ intend ser n S snake t v = Some c /\
@@ -79,21 +79,19 @@ Print Assumptions C03_sent_coerces_to_intended_partial.
 
 (* the same for a value held by a field of a (nested) input model *)
 Theorem C03_field_delivery_partial : forall ser, ser_wf ser -> forall S snake,
-  inputs_ok S snake = true -> g_f21 S = true ->
-  forall n t nl v, typed n S snake t v = true -> ok_ty nl t = true -> (nl = false -> v <> PNone) ->
+  inputs_ok S snake = true ->
+  forall n t nl v, typed n S snake t v = true -> (nl = false -> v <> PNone) ->
   exists j c, (forall m, n <= m -> dump_field ser m S snake t nl v = Some j) /\
               coerce n S t j = Some c /\ intend ser n S snake t v = Some c /\
               (v <> PNone -> j <> JNull).
 Proof. exact field_delivery. Qed.
 Print Assumptions C03_field_delivery_partial.
 
-(* schema-valid values can be held by the generated input classes (guard g_f21 / ok_ty) *)
-Theorem C03_constructible_partial : forall S snake,
-  inputs_ok S snake = true -> g_f21 S = true ->
-  forall n t nl v, typed n S snake t v = true -> ok_ty nl t = true -> (nl = false -> v <> PNone) ->
-  constructible n S snake t nl v = true.
+(* every schema-valid value can be held by the generated input classes (unguarded since /repo 1ef155d) *)
+Theorem C03_constructible : forall S snake n t nl v,
+  typed n S snake t v = true -> (nl = false -> v <> PNone) -> constructible n S snake t nl v = true.
 Proof. exact typed_constructible. Qed.
-Print Assumptions C03_constructible_partial.
+Print Assumptions C03_constructible.
 
 (* ---- refutations on the faithful model ---- *)
 Definition cfgDT : scalar_cfg :=
@@ -154,14 +152,15 @@ Theorem C03_names_refuted_gql :
   call_method ser_inst 8 [] true [V "gql" (TNamed "Int")] [("gql", PInt 1)] = PyNotCallable.
 Proof. vm_compute. reflexivity. Qed.
 
-(* F21: a schema-valid value the generated class refuses *)
+(* F21 (fixed for input fields by /repo 1ef155d): [Int]! with a None item is now accepted by the class;
+   the method SIGNATURE still drops the Optional of the items (a type hint, no runtime effect) *)
 Definition S21 : schema :=
   [("In", DInput [{| if_name := "xs"; if_type := TNonNull (TList (TNamed "Int")); if_default := None |}])].
-Theorem C03_constructible_refuted :
-  typed 8 S21 true (TNamed "In") (PModel "In" [("xs", PList [PInt 1; PNone])]) = true /\
-  constructible 8 S21 true (TNamed "In") true (PModel "In" [("xs", PList [PInt 1; PNone])]) = false /\
-  g_f21 S21 = false.
-Proof. vm_compute. repeat split. Qed.
+Example C03_f21_fixed_for_inputs_hint_remains :
+  constructible 8 S21 true (TNamed "In") true (PModel "In" [("xs", PList [PInt 1; PNone])]) = true /\
+  option_map (fun r => ann_str (fst r)) (parse_type_node S21 (TNonNull (TList (TNamed "Int"))) true)
+    = Some "List[int]".
+Proof. vm_compute. split; reflexivity. Qed.
 
 (* observation: `$b: Int! = 5` is optional for GraphQL but a required Python parameter *)
 Theorem C03_default_nonnull_is_required :
@@ -182,7 +181,7 @@ Definition vA : pyval :=
                 ("sub", PModel "InA" [("foo_bar", PNone)])].
 
 Example C03_hypotheses_satisfiable :
-  inputs_ok S2 true = true /\ g_f21 S2 = true /\
+  inputs_ok S2 true = true /\
   typed 8 S2 true (TNonNull (TList (TNamed "InA"))) (PList [vA; PNone]) = true /\
   g_f10 S2 (TNonNull (TList (TNamed "InA"))) = true /\
   convert_value ser_inst 8 S2 true (PList [vA; PNone]) =
